@@ -1,5 +1,8 @@
 import EaselModel.Msa.LemmasMsa
 import EaselModel.Msa.LemmasConv
+import EaselModel.Msa.LemmasGaps
+import EaselModel.Msa.LemmasTags
+import EaselModel.Msa.LemmasWuss
 /-! # C15 — alignment transformations keep the alignment well formed and the residues intact; WUSS round trips
 
 Property theorems only; proofs are glue on the lemmas of `EaselModel/Msa/Lemmas*.lean`.
@@ -58,6 +61,70 @@ theorem columnSubset_dealign (isGap : UInt8 → Bool) (mask : List Bool) (row : 
     dealign isGap (maskFilter mask row) = dealign isGap row :=
   dealign_maskFilter isGap mask row hl hg
 
+/-! ## MinimGaps / NoGaps -/
+
+/-- text mode: `esl_msa_MinimGaps` removes exactly the columns that are a gap in every sequence, except (RF rule as
+    coded) columns whose RF character is not a gap when `consider_rf` is set and RF is present -/
+theorem minimGaps_text_removes_exactly (m : Msa) (gaps : Bytes) (considerRf : Bool) (apos : Nat) (h : apos < m.alen) :
+    (minimGapsTextMask m gaps considerRf).getD apos true = false ↔
+      ((colOf m.rows apos).all (inGaps gaps) = true ∧
+       ¬ (considerRf = true ∧ ∃ rf, m.rf = some rf ∧ inGaps gaps (rf.getD apos 0) = false)) :=
+  minimGapsTextMask_spec m gaps considerRf apos h
+
+/-- digital mode: gap = `esl_abc_XIsGap || esl_abc_XIsMissing`; RF protected unless it digitizes to gap or missing -/
+theorem minimGaps_digital_removes_exactly (m : Msa) (a : Abc) (considerRf : Bool) (apos : Nat) (h : apos < m.alen) :
+    (minimGapsDigitalMask m a considerRf).getD apos true = false ↔
+      ((colOf m.rows apos).all (fun x => a.xIsGap x || a.xIsMissing x) = true ∧
+       ¬ (considerRf = true ∧ ∃ rf, m.rf = some rf ∧
+            (a.cIsGap (rf.getD apos 0) || a.cIsMissing (rf.getD apos 0)) = false)) :=
+  minimGapsDigitalMask_spec m a considerRf apos h
+
+/-- `esl_msa_MinimGaps` (text mode, or amino digital): the result is the column filter by that mask, well formed, and
+    every row spells the same ungapped sequence as before -/
+theorem minimGaps_text_is_filter (m : Msa) (gaps : Bytes) (considerRf : Bool) (wf : m.WF) (hd : m.isDigital = false)
+    (hnuc : ∀ a, m.abc = some a → a.isNucleic = false) :
+    minimGaps m gaps considerRf = { msa := m.colFilter (minimGapsTextMask m gaps considerRf), st := .ok } ∧
+    (m.colFilter (minimGapsTextMask m gaps considerRf)).WF ∧
+    ∀ r ∈ m.rows, dealign (inGaps gaps) (maskFilter (minimGapsTextMask m gaps considerRf) r) = dealign (inGaps gaps) r := by
+  have hl := minimGapsTextMask_length m gaps considerRf
+  refine ⟨?_, colFilter_wf m _ wf hl, fun r hr => ?_⟩
+  · simp only [minimGaps, hd, minimGapsText]
+    simp [columnSubset_is_filter m _ wf hl hnuc]
+  · exact dealign_maskFilter _ _ r (by rw [hl, (wf.rows_ok r hr).1]) (minimGapsTextMask_removesOnlyGaps m gaps considerRf r hr)
+
+theorem minimGaps_digital_is_filter (m : Msa) (a : Abc) (gaps : Bytes) (considerRf : Bool) (wf : m.WF)
+    (hd : m.isDigital = true) (habc : m.abc = some a) (hnuc : a.isNucleic = false) :
+    minimGaps m gaps considerRf = { msa := m.colFilter (minimGapsDigitalMask m a considerRf), st := .ok } ∧
+    (m.colFilter (minimGapsDigitalMask m a considerRf)).WF ∧
+    ∀ r ∈ m.rows, dealign (fun x => a.xIsGap x || a.xIsMissing x) (maskFilter (minimGapsDigitalMask m a considerRf) r)
+                  = dealign (fun x => a.xIsGap x || a.xIsMissing x) r := by
+  have hl := minimGapsDigitalMask_length m a considerRf
+  refine ⟨?_, colFilter_wf m _ wf hl, fun r hr => ?_⟩
+  · simp only [minimGaps, hd, habc]
+    exact columnSubset_is_filter m _ wf hl (fun a' ha' => by rw [habc] at ha'; injection ha' with e; rw [← e]; exact hnuc)
+  · exact dealign_maskFilter _ _ r (by rw [hl, (wf.rows_ok r hr).1]) (minimGapsDigitalMask_removesOnlyGaps m a considerRf r hr)
+
+/-- `esl_msa_NoGaps` keeps exactly the columns without any gap; every row of the result is gap free -/
+theorem noGaps_text_keeps_exactly (m : Msa) (gaps : Bytes) (apos : Nat) (h : apos < m.alen) :
+    (noGapsTextMask m gaps).getD apos false = true ↔ (colOf m.rows apos).any (inGaps gaps) = false :=
+  noGapsTextMask_spec m gaps apos h
+
+theorem noGaps_text_is_filter (m : Msa) (gaps : Bytes) (wf : m.WF) (hd : m.isDigital = false)
+    (hnuc : ∀ a, m.abc = some a → a.isNucleic = false) :
+    noGaps m gaps = { msa := m.colFilter (noGapsTextMask m gaps), st := .ok } ∧
+    (m.colFilter (noGapsTextMask m gaps)).WF ∧
+    ∀ r ∈ m.rows, ∀ c ∈ maskFilter (noGapsTextMask m gaps) r, inGaps gaps c = false := by
+  have hl := noGapsTextMask_length m gaps
+  refine ⟨?_, colFilter_wf m _ wf hl, fun r hr => ?_⟩
+  · simp only [noGaps, hd, noGapsText]
+    simp [columnSubset_is_filter m _ wf hl hnuc]
+  · apply maskFilter_noGaps_row _ _ r (by rw [hl, (wf.rows_ok r hr).1])
+    intro i hi hm
+    rw [(wf.rows_ok r hr).1] at hi
+    have := (noGapsTextMask_spec m gaps i hi).mp hm
+    rw [List.any_eq_false] at this
+    simpa using this _ (colOf_mem m.rows r hr i)
+
 /-! ## SequenceSubset, Clone -/
 
 /-- `esl_msa_SequenceSubset` succeeds iff at least one sequence is selected, and then rows, names, weights, accessions,
@@ -87,16 +154,28 @@ theorem sequenceSubset_fails_iff_empty (m : Msa) (useme : List Bool) :
   unfold sequenceSubset
   by_cases h : countSelected m useme = 0 <;> simp [h]
 
-/-- the subset of a well-formed alignment without unparsed GS/GR markup is well formed.
-    PARTIAL: the general case needs the widths of the rebuilt GS/GR tables (hypotheses `hgs`/`hgr`/`hgrok` of
-    `sequenceSubsetMsa_wf_core`); they are checked on every run by the monitors. -/
-theorem sequenceSubset_wellformed_partial (m : Msa) (useme : List Bool) (b : Msa) (wf : m.WF)
-    (hgs : m.gs = []) (hgr : m.gr = []) (h : sequenceSubset m useme = .ok b) : b.WF := by
+/-- the subset of a well-formed alignment (distinct GS tags, distinct GR tags — what the keyhash of
+    `esl_msa_AddGS`/`AppendGR` guarantees) is well formed, including the widths and lengths of the rebuilt tables -/
+theorem sequenceSubset_wellformed (m : Msa) (useme : List Bool) (b : Msa) (wf : m.WF)
+    (hgs : (m.gs.map (·.1)).Nodup) (hgr : (m.gr.map (·.1)).Nodup) (h : sequenceSubset m useme = .ok b) : b.WF := by
   obtain ⟨hn, rfl⟩ := sequenceSubset_ok m useme b h
-  apply sequenceSubsetMsa_wf_core m useme wf hn
-  · intro t ht; simp [sequenceSubsetMsa, hgs, subsetTags_nil_src] at ht
-  · intro t ht; simp [sequenceSubsetMsa, hgr, subsetTags_nil_src] at ht
-  · intro t ht; simp [sequenceSubsetMsa, hgr, subsetTags_nil_src] at ht
+  exact sequenceSubsetMsa_wf m useme wf hn hgs hgr
+
+/-- names, weights, rows and per-sequence annotation stay attached to their sequence: the retained old sequence `o`
+    is the new sequence `rankOf useme o` (= number of selected sequences before it) in every per-sequence array -/
+theorem sequenceSubset_attached {α : Type} (d : α) (useme : List Bool) (xs : List α) (o : Nat) (ho : o < xs.length)
+    (hu : useme.getD o false = true) : (maskFilter useme xs).getD (rankOf useme o) d = xs.getD o d :=
+  maskFilter_getD_rank d useme xs o ho hu
+
+/-- unparsed GS and GR markup of every retained sequence is carried over, tag by tag, to its new index, and nothing
+    else appears there (an empty GR string, possible only when `alen = 0`, is dropped by `esl_strcat`) -/
+theorem sequenceSubset_keeps_markup (m : Msa) (useme : List Bool) (b : Msa)
+    (hgs : (m.gs.map (·.1)).Nodup) (hgr : (m.gr.map (·.1)).Nodup) (h : sequenceSubset m useme = .ok b)
+    (o : Nat) (ho : o < m.nseq) (hu : useme.getD o false = true) (tag : Bytes) :
+    tblLookup tag (rankOf useme o) b.gs = tblLookup tag o m.gs ∧
+    tblLookup tag (rankOf useme o) b.gr = (tblLookup tag o m.gr).bind (fun v => if v.isEmpty then none else some v) := by
+  obtain ⟨_, rfl⟩ := sequenceSubset_ok m useme b h
+  exact (subset_tables m useme hgs hgr).2.2.2.2 o ho hu tag
 
 /-- `esl_msa_Clone` / `esl_msa_Copy` duplicate every field (and, being functions, leave the input unchanged) -/
 theorem clone_is_identity (m : Msa) : clone m = m := rfl
@@ -161,6 +240,21 @@ theorem generated_complement_involutive :
   ⟨rna_complInvolutive, dna_complInvolutive⟩
 
 /-! ## WUSS -/
+
+/-- `esl_wuss2ct` returned `eslOK`: the table has `len+1` cells and is an involution without fixed points on the
+    paired positions, all of them within `1..len` -/
+theorem wuss2ct_involution (ss : Bytes) (ct : List Nat) (h : wuss2ct ss = some ct) :
+    ct.length = ss.length + 1 ∧
+    ∀ i, ct.getD i 0 ≠ 0 →
+      1 ≤ i ∧ i ≤ ss.length ∧ 1 ≤ ct.getD i 0 ∧ ct.getD i 0 ≤ ss.length ∧
+      ct.getD (ct.getD i 0) 0 = i ∧ ct.getD i 0 ≠ i :=
+  wuss2ct_involution' ss ct h
+
+/-- every pair of the table joins an opening symbol with ITS closing symbol: `<>`, `()`, `[]`, `{}` or the same
+    pseudoknot letter in upper (left) and lower (right) case — pairs never cross bracket kinds or letters -/
+theorem wuss2ct_pairs_matched (ss : Bytes) (ct : List Nat) (h : wuss2ct ss = some ct) (i : Nat)
+    (hi : ct.getD i 0 ≠ 0) (hlt : i < ct.getD i 0) : pairOk ss i (ct.getD i 0) :=
+  wuss2ct_pairs_matched' ss ct h i hi hlt
 
 /-- `esl_wuss_reverse` is an involution on every string -/
 theorem wussReverse_involutive (ss : Bytes) : wussReverse (wussReverse ss) = ss :=
